@@ -114,7 +114,7 @@ func (engC02) Gen(r *Rng, s *Script, idx int, tier string) {
 			s.Steps = append(s.Steps, genRenderStep(r, 10))
 			continue
 		}
-		s.Steps = append(s.Steps, genBuildStep(r, m, 0, &ctr))
+		s.Steps = append(s.Steps, genBuildStep(r, m, -1, &ctr)) // level -1: unique items plus blank ones (nil, "")
 	}
 }
 
